@@ -253,26 +253,79 @@ def http_content_after_status(repo, col):
                 p = cfg.path(cfg.entry, rn, avoiding=rfs_nodes)
                 path = [norm(x.ast)[:50] if x.ast is not None else x.label
                         for x in (p or [])]
-            col.add(rule + ".status", fn, "return %s" % norm(r.value)[:50], ok,
+            # the status check may sit in a local helper that hands out the
+            # response: not provable here, but not evidence of a defect
+            und_s = False
+            if not ok:
+                from .core import helper_closure, resolve_local_call
+                base_fn = getattr(fn, "inlined_from", fn)
+                # the response comes from a local helper: every path of the
+                # helper that returns a response object (not a constant
+                # sentinel) must pass raise_for_status
+                verdicts = []
+                for h_ in helper_closure(base_fn):
+                    if h_ is base_fn:
+                        continue
+                    hrfs = []
+                    hcfg = h_.cfg()
+                    hown = enclosing_stmt_map(h_.node)
+                    for c_ in calls_in(h_.node):
+                        if isinstance(c_.func, ast.Attribute) and \
+                                c_.func.attr == "raise_for_status":
+                            n_ = hcfg.node_of(hown.get(id(c_)))
+                            if n_ is not None:
+                                hrfs.append(n_)
+                    if not hrfs:
+                        continue
+                    for r_ in stmts_of(h_.node):
+                        if isinstance(r_, ast.Return) and r_.value is not None \
+                                and not isinstance(r_.value, ast.Constant):
+                            rn_ = hcfg.node_of(r_)
+                            verdicts.append(hcfg.every_path_passes(
+                                hcfg.entry, rn_, hrfs))
+                if verdicts and all(verdicts):
+                    ok = True
+                    path = None
+                elif verdicts and not all(verdicts):
+                    und_s = False      # a response escapes unchecked: FAIL
+                else:
+                    und_s = any(
+                        isinstance(c_.func, ast.Attribute) and
+                        c_.func.attr == "raise_for_status"
+                        for h_ in helper_closure(base_fn) if h_ is not base_fn
+                        for c_ in calls_in(h_.node))
+            col.add(rule + ".status", fn, "return %s" % norm(r.value)[:50],
+                    ok or und_s,
                     "every path to the return checks the HTTP status" if ok
                     else "a path returns the response body without "
                     "raise_for_status(): an error page is handed out as data",
-                    node=r, path=path)
+                    node=r, path=path, undecided=und_s and not ok)
             if ranged:
                 params = fn.params
                 length = "length" if "length" in params else params[-1]
                 okl = False
+                from .dataflow import single_defs, expand
+                sd = single_defs(fn.node)
                 for g, atoms in raise_guards(fn.node):
                     gn = cfg.node_of(g)
                     if gn is None or isinstance(g, ast.Assert):
                         continue
-                    from .dataflow import single_defs, expand
-                    sd = single_defs(fn.node)
                     for a in atoms:
                         if a.op == "==" and {norm(a.left), norm(a.right)} >= \
                                 {length} and any("len(" in norm(expand(x, sd))
                                                  for x in (a.left, a.right)):
                             if cfg.every_path_passes(cfg.entry, rn, [gn]):
+                                okl = True
+                if not okl:
+                    # positive form: `if len(content) == length: return ...`
+                    from .rules_more3 import _tests_enclosing
+                    ctx = _tests_enclosing(fn.node, r) or []
+                    for t_, tr_ in ctx:
+                        for a in holds(t_, tr_):
+                            if a.op == "==" and {norm(a.left),
+                                                 norm(a.right)} >= {length} \
+                                    and any("len(" in norm(expand(x, sd))
+                                            for x in (a.left, a.right)):
                                 okl = True
                 col.add(rule + ".range-length", fn,
                         "return %s" % norm(r.value)[:50], okl,
@@ -406,8 +459,9 @@ def overwrite_and_gzip(repo, col):
         opens = []
         for c in calls_in(fn.node):
             nm = fn.module.resolve(call_name(c) or "") or ""
-            if nm == "gzip.open" or (isinstance(c.func, ast.Attribute)
-                                     and c.func.attr == "open") or nm == "open":
+            if nm in ("gzip.open", "gzip.GzipFile", "os.open", "open") or (
+                    isinstance(c.func, ast.Attribute)
+                    and c.func.attr == "open" and nm != "os.open"):
                 opens.append(c)
         if not opens:
             # refactored into a helper: look one level down
@@ -426,44 +480,72 @@ def overwrite_and_gzip(repo, col):
             col.add(rule + ".overwrite", fn, "write-open", True,
                     "no write-open found", undecided=True)
             continue
+        from .dataflow import control_names
+
+        def depends_on_overwrite(expr, stmt_defs=None):
+            """Data dependence of expr on `overwrite`, or control dependence
+            of the statements that define the names it uses."""
+            names = names_in(expr)
+            clos = closure_names(fn.node, names, defs)
+            if "overwrite" in clos:
+                return True
+            for nm_ in clos:
+                for d in defs.get(nm_, []):
+                    if d.stmt is not None and "overwrite" in closure_names(
+                            fn.node, control_names(fn.node, d.stmt), defs):
+                        return True
+            return False
+
+        def exclusive_somewhere(expr):
+            t_ = cnorm(fn.module, expr)
+            if "'x" in t_ or "O_EXCL" in t_:
+                return True
+            for nm_ in closure_names(fn.node, names_in(expr), defs):
+                for d in defs.get(nm_, []):
+                    if d.value is not None:
+                        tv = cnorm(fn.module, d.value)
+                        if "'x" in tv or "O_EXCL" in tv:
+                            return True
+            return False
         for c in opens:
             nm = fn.module.resolve(call_name(c) or "") or ""
+            # open(<file descriptor>, mode): the descriptor was opened
+            # elsewhere (os.open), the mode string decides nothing
+            if nm in ("open", "io.open", "os.fdopen") and c.args and (
+                    (isinstance(c.args[0], ast.Call) and (fn.module.resolve(
+                        call_name(c.args[0]) or "") or "") == "os.open") or
+                    (isinstance(c.args[0], ast.Name) and any(
+                        isinstance(d.value, ast.Call) and (fn.module.resolve(
+                            call_name(d.value) or "") or "") == "os.open"
+                        for d in defs.get(c.args[0].id, [])))):
+                continue
             mode = None
-            if nm == "gzip.open" or nm == "open":
+            if nm in ("gzip.open", "open", "io.open", "gzip.GzipFile"):
                 mode = c.args[1] if len(c.args) > 1 else kwarg(c, "mode")
+            elif nm == "os.open":
+                mode = c.args[1] if len(c.args) > 1 else kwarg(c, "flags")
             else:
                 mode = c.args[0] if c.args else kwarg(c, "mode")
-            okm = False
-            if mode is not None and not isinstance(mode, ast.Name):
-                mt = cnorm(fn.module, mode)
-                okm = "overwrite" in mt and "'xb'" in mt
-            if isinstance(mode, ast.Name):
-                clos = closure_names(fn.node, [mode.id], defs)
-                okm = "overwrite" in clos
-                for d in defs.get(mode.id, []):
-                    if d.value is not None and "'xb'" in cnorm(
-                            fn.module, d.value) and \
-                            "overwrite" in norm(d.value):
-                        okm = True
-                # if/else form: the exclusive mode is assigned under a test
-                # on `overwrite`
-                from .dataflow import control_names
-                mdefs = [d for d in defs.get(mode.id, [])
-                         if d.value is not None]
-                if not okm and mdefs and any(
-                        isinstance(d.value, ast.Constant) and
-                        d.value.value in ("xb", "x") for d in mdefs) and all(
-                        "overwrite" in closure_names(
-                            fn.node, control_names(fn.node, d.stmt), defs)
-                        for d in mdefs if isinstance(d.value, ast.Constant)):
-                    okm = True
-            col.add(rule + ".overwrite", fn, norm(c)[:60], okm,
-                    "open mode derives from `overwrite` ('xb' when false)"
-                    if okm else "this write-open does not depend on "
-                    "`overwrite`: an existing file is replaced although "
-                    "overwriting was not permitted", node=c)
+            if mode is None:
+                col.add(rule + ".overwrite", fn, norm(c)[:60], True,
+                        "open mode not given explicitly", node=c,
+                        undecided=True)
+                continue
+            dep = depends_on_overwrite(mode)
+            excl = exclusive_somewhere(mode)
+            okm = dep and excl
+            und = not okm and (dep or excl)
+            col.add(rule + ".overwrite", fn, norm(c)[:60], okm or und,
+                    "open mode derives from `overwrite` (exclusive creation "
+                    "when false)" if okm else "this write-open does not "
+                    "depend on `overwrite`: an existing file is replaced "
+                    "although overwriting was not permitted", node=c,
+                    undecided=und)
             # gz pairing
-            path_arg = c.args[0] if nm in ("gzip.open", "open") and c.args \
+            if nm == "gzip.GzipFile":
+                nm = "gzip.open"
+            path_arg = c.args[0] if nm in ("gzip.open", "open", "os.open") \
+                and c.args \
                 else (c.func.value if isinstance(c.func, ast.Attribute) else None)
             ptxt = cnorm(fn.module, path_arg) if path_arg is not None else ""
             appended = ".name + '.gz'" in ptxt or "+ '.gz'" in ptxt
@@ -603,8 +685,8 @@ def data_type_tables(repo, col):
     rule = "E-SIB.tables"
     ce = repo.module("chunk_encoding")
     dt = repo.module("data_types")
-    a = _const_tuple(ce, ce.constants.get("NEUROGLANCER_DATA_TYPES"))
-    b = _const_tuple(dt, dt.constants.get("NG_DATA_TYPES"))
+    a = _const_tuple(ce, ce.const("NEUROGLANCER_DATA_TYPES"))
+    b = _const_tuple(dt, dt.const("NG_DATA_TYPES"))
     if a is None or b is None:
         col.add(rule, "chunk_encoding:NEUROGLANCER_DATA_TYPES",
                 "data type tables", True, "a data type table is not a literal "
@@ -638,7 +720,7 @@ def data_type_tables(repo, col):
             "" if okc else "compressed_segmentation type sets disagree: %s"
             % [sorted(s) for _, s in sets], undecided=not sets)
     m = repo.module("_compressed_segmentation")
-    t = norm(m.constants.get("COMPRESSED_SEGMENTATION_DATA_TYPES"))
+    t = norm(m.const("COMPRESSED_SEGMENTATION_DATA_TYPES"))
     okd = "np.uint32" in t and "np.uint64" in t and t.count("newbyteorder('<')") == 2
     col.add(rule, "_compressed_segmentation:COMPRESSED_SEGMENTATION_DATA_TYPES",
             "little-endian uint32 / uint64", okd, "" if okd else
@@ -660,7 +742,7 @@ def data_type_tables(repo, col):
     table_driven = False
     for h in closure:
         for nm in names_in(h.node):
-            tv = h.module.constants.get(nm)
+            tv = h.module.const(nm)
             keys = []
             if isinstance(tv, (ast.Tuple, ast.List)):
                 for e in tv.elts:
@@ -953,15 +1035,15 @@ def dispatch_agreement(repo, col):
             "HTTP chunk URLs are not built from the shared flat pattern",
             undecided=undh and not okh)
     acc = repo.module("accessor")
-    okp = isinstance(acc.constants.get("_CHUNK_PATTERN_FLAT"), ast.Constant) and \
-        acc.constants["_CHUNK_PATTERN_FLAT"].value == \
+    okp = isinstance(acc.const("_CHUNK_PATTERN_FLAT"), ast.Constant) and \
+        acc.const("_CHUNK_PATTERN_FLAT").value == \
         "{key}/{0}-{1}_{2}-{3}_{4}-{5}"
     col.add(rule, "accessor:_CHUNK_PATTERN_FLAT", "{key}/{0}-{1}_{2}-{3}_{4}-{5}",
             okp, "" if okp else "flat chunk name pattern differs from the "
             "Neuroglancer precomputed naming x0-x1_y0-y1_z0-z1")
     fam = repo.module("file_accessor")
-    oksd = isinstance(fam.constants.get("_CHUNK_PATTERN_SUBDIR"), ast.Constant) \
-        and fam.constants["_CHUNK_PATTERN_SUBDIR"].value == \
+    oksd = isinstance(fam.const("_CHUNK_PATTERN_SUBDIR"), ast.Constant) \
+        and fam.const("_CHUNK_PATTERN_SUBDIR").value == \
         "{key}/{0}-{1}/{2}-{3}/{4}-{5}"
     col.add(rule, "file_accessor:_CHUNK_PATTERN_SUBDIR",
             "{key}/{0}-{1}/{2}-{3}/{4}-{5}", oksd, "" if oksd else
